@@ -84,19 +84,24 @@ bool c04_gen(int ntok, char **tok)
 		if (ret == LZMA_OK)
 			ret = encode_all(&strm, data, n, &out);
 	} else if (!strcmp(fmt, "raw")) {
-		if (!c04_chain(v, f, &st) || v >= 24) {
+		// variant = chain number + (option modifiers << 8), see c04_chain_mods
+		const uint64_t vv = hp_u64(tok[2]);
+		const unsigned chain = (unsigned)(vv & 0xFF);
+		if (!c04_chain(chain, f, &st) || chain >= 24) {
 			free(data);
 			return false;
 		}
 		if (st.lzma.dict_size < 4096)
 			st.lzma.dict_size = 4096;
-		if (v == 8 || v == 9) {
+		if (chain == 8 || chain == 9) {
 			st.lzma.ext_size_low = (uint32_t)n;
 			st.lzma.ext_size_high = 0;
 		}
+		c04_chain_mods(&st, vv >> 8, true);
 		ret = lzma_raw_encoder(&strm, f);
 		if (ret == LZMA_OK)
 			ret = encode_all(&strm, data, n, &out);
+		c04_chain_done(&st);
 	} else if (!strcmp(fmt, "lzip")) {
 		// LZIP member version 1: "LZIP" 01 <dict byte> <LZMA stream lc3 lp0 pb2 with end marker> CRC32 data-size member-size
 		c04_chain(3, f, &st);
